@@ -91,6 +91,9 @@ def run(ctx: Ctx) -> None:
     trunc = sum(r.get("stats", {}).get("truncated", 0) for r in results)
     nexec = sum(r.get("stats", {}).get("executions", 0) for r in results)
     ctx.extra["dfs_executions"] = nexec
+    ctx.extra["dfs_diverged_replays"] = sum(r.get("stats", {}).get("diverged", 0) for r in results)
+    if ctx.extra["dfs_diverged_replays"]:
+        ctx.note(f"WARNING: {ctx.extra['dfs_diverged_replays']} schedule prefixes did not replay deterministically")
     ctx.extra["dfs_truncated_prefixes"] = trunc
     ctx.exhaustive = trunc == 0
     bad = [r for r in results if r["outcome"] not in ("done",)]
